@@ -110,6 +110,8 @@ pub struct Exec {
     link_sess: HashMap<String, String>,
     /// await_outcome call id -> the send_batchable call it resolves
     await_of: HashMap<u64, u64>,
+    /// what a well-behaved scripted peer knows about its own side (only used to resolve symbolic fields of *input* events and to withhold guarded transfers)
+    pv: PeerView,
 }
 
 pub fn class_of(dbg: &str) -> String {
@@ -165,12 +167,24 @@ fn identify(msg: &Message<Body<Value>>) -> (i64, usize, bool) {
     (m, data.len(), intact)
 }
 
+/// The scripted peer's own bookkeeping: per peer channel the next-outgoing-id of its begin, the transfer frames and deliveries it has written
+/// and the incoming-window it last advertised; per link it sends on, its initial delivery-count, the deliveries it has started and the
+/// limit (delivery-count + link-credit) of the endpoint's last flow.  Never used for a verdict.
+#[derive(Default)]
+struct PeerView {
+    noi0: HashMap<u16, u32>, frames: HashMap<u16, u32>, dels: HashMap<u16, u32>, iw: HashMap<u16, u32>,
+    sdc: HashMap<String, (u32, u32)>, limit: HashMap<String, u32>,
+    inprog: HashMap<(u16, u32), u32>, skipping: std::collections::HashSet<(u16, u32)>,
+    /// the previous script event could not be executed (an answer scripted for it is withheld: "needs_prev")
+    last_skipped: bool,
+}
+
 impl Exec {
     pub fn new(listener: bool) -> Self {
         Exec { log: vec![], t0: tokio::time::Instant::now(), cpu_mark: crate::mon::thread_cpu_ns(), alloc_mark: crate::mon::alloc_mark(), side_listener: listener, peer: None, sasl: SaslSt::default(), txns: HashMap::new(), txn_ids: vec![], ctl_links: vec![], buf: vec![], eof_logged: false, sh: Shifts::default(), conn: None, sessions: HashMap::new(),
                senders: HashMap::new(), receivers: HashMap::new(), held: HashMap::new(), futs: HashMap::new(), calls: vec![], next_call: 1, roles: HashMap::new(),
                pending_begins: vec![], eut_channel: HashMap::new(), eut_dids: HashMap::new(), eut_frames: HashMap::new(), eut_noi: HashMap::new(),
-               out_progress: HashMap::new(), sent_queue: HashMap::new(), link_of_handle: HashMap::new(), pending_attach: vec![], msg_shapes: HashMap::new(), names: HashMap::new(), eut_sender_dc: HashMap::new(), peer_link_name: HashMap::new(), gates: HashMap::new(), batch_calls: vec![], calls_scope: HashMap::new(), link_sess: HashMap::new(), await_of: HashMap::new() }
+               out_progress: HashMap::new(), sent_queue: HashMap::new(), link_of_handle: HashMap::new(), pending_attach: vec![], msg_shapes: HashMap::new(), names: HashMap::new(), eut_sender_dc: HashMap::new(), peer_link_name: HashMap::new(), gates: HashMap::new(), batch_calls: vec![], calls_scope: HashMap::new(), link_sess: HashMap::new(), await_of: HashMap::new(), pv: PeerView::default() }
     }
     fn t(&self) -> u64 { tokio::time::Instant::now().duration_since(self.t0).as_millis() as u64 }
     fn emit(&mut self, mut j: J) {
@@ -179,7 +193,7 @@ impl Exec {
         j["t"] = json!(self.t().min(1 << 30));
         self.log.push(j);
     }
-    fn skip(&mut self, e: &J, why: &str) { self.emit(json!({"ev": "Skip", "what": e["e"], "why": why})); }
+    fn skip(&mut self, e: &J, why: &str) { self.pv.last_skipped = true; self.emit(json!({"ev": "Skip", "what": e["e"], "why": why})); }
 
     // ------------------------------------------------------------------ observation of the EUT
     async fn drain(&mut self) {
@@ -250,6 +264,11 @@ impl Exec {
                 self.link_of_handle.insert((ch, a.handle.0), a.name.clone());
                 if eut_sender { self.eut_sender_dc.insert(a.name.clone(), (a.initial_delivery_count.unwrap_or(0), 0)); }
                 if matches!(a.target.as_deref(), Some(fe2o3_amqp_types::messaging::TargetArchetype::Coordinator(_))) && eut_sender { self.ctl_links.push((ch, a.handle.0)); }
+            }
+            Performative::Flow(fl) => {
+                // the endpoint as receiver states how far the peer may send on that link
+                if let Some(h) = &fl.handle { if self.roles.get(&(true, ch, h.0)) == Some(&false) { if let Some(n) = self.link_of_handle.get(&(ch, h.0)) {
+                    self.pv.limit.insert(n.clone(), fl.delivery_count.unwrap_or(0).wrapping_add(fl.link_credit.unwrap_or(0))); } } }
             }
             Performative::Transfer(t) => {
                 *self.eut_frames.entry(ch).or_insert(0) += 1;
@@ -378,6 +397,43 @@ impl Exec {
         // symbolic references
         if name == "begin" { if let Some(s) = f.get("rch").and_then(|r| r.get("ref")).and_then(|r| r.as_str()) {
             match self.eut_channel.get(s) { Some(c) => f["rch"] = json!(*c), None => return self.skip(e, "begin not seen") } } }
+        if name == "begin" { self.pv.noi0.insert(ch, real(f.get("noi").and_then(|x| x.as_i64()).unwrap_or(0), self.sh.inn)); self.pv.frames.insert(ch, 0); self.pv.dels.insert(ch, 0); }
+        if name == "flow" {
+            // the peer's own side "as it stands": next-outgoing-id = what it stated in its begin plus the transfer frames it has written; incoming-window as last advertised
+            if f.get("noi").and_then(|r| r.get("sent")).is_some() { f["noi"] = json!(off(self.pv.noi0.get(&ch).copied().unwrap_or(self.sh.inn).wrapping_add(self.pv.frames.get(&ch).copied().unwrap_or(0)), self.sh.inn)); }
+            if f.get("iw").and_then(|r| r.get("keep")).is_some() { f["iw"] = json!(self.pv.iw.get(&ch).copied().unwrap_or(100)); }
+            // a sender that has used up or given back all credit on request: delivery-count = the receiver's limit
+            if f.get("dc").and_then(|r| r.get("drained")).is_some() {
+                let h = f.get("h").and_then(|x| x.as_u64()).unwrap_or(0) as u32;
+                let Some(n) = self.peer_link_name.get(&(ch, h)).cloned() else { return self.skip(e, "link not attached") };
+                let Some(lim) = self.pv.limit.get(&n).copied() else { return self.skip(e, "no flow seen") };
+                if let Some(x) = self.pv.sdc.get_mut(&n) { x.1 = lim.wrapping_sub(x.0); }
+                f["dc"] = json!(off(lim, self.sh.dc_in));
+            }
+        }
+        if name == "begin" || name == "flow" { if let Some(w) = f.get("iw").and_then(|x| x.as_u64()) { self.pv.iw.insert(ch, w as u32); } }
+        if name == "transfer" && e.get("guard").and_then(|x| x.as_bool()).unwrap_or(false) {
+            // a credit-respecting sender: a delivery is started only while the endpoint's last flow leaves room for it; ids and tags are the sender's own counters
+            let h = f.get("h").and_then(|x| x.as_u64()).unwrap_or(0) as u32;
+            let key = (ch, h);
+            let more = f.get("more").and_then(|x| x.as_bool()).unwrap_or(false);
+            if self.pv.skipping.contains(&key) { if !more { self.pv.skipping.remove(&key); } return self.skip(e, "withheld: no credit"); }
+            let did = match self.pv.inprog.get(&key) {
+                Some(d) => *d,
+                None => {
+                    let Some(n) = self.peer_link_name.get(&key).cloned() else { return self.skip(e, "link not attached") };
+                    let (idc, started) = self.pv.sdc.get(&n).copied().unwrap_or((self.sh.dc_in, 0));
+                    let room = self.pv.limit.get(&n).map(|l| l.wrapping_sub(idc.wrapping_add(started)) as i32).unwrap_or(0);
+                    if room <= 0 { if more { self.pv.skipping.insert(key); } return self.skip(e, "withheld: no credit"); }
+                    self.pv.sdc.insert(n, (idc, started + 1));
+                    let c = self.pv.dels.entry(ch).or_insert(0); let d = *c; *c += 1; d
+                }
+            };
+            if more { self.pv.inprog.insert(key, did); } else { self.pv.inprog.remove(&key); }
+            if f.get("did").and_then(|r| r.get("auto")).is_some() { f["did"] = json!(did); }
+            if f.get("tag").and_then(|r| r.get("auto")).is_some() { f["tag"] = json!([did % 250]); }
+        }
+        if name == "transfer" { *self.pv.frames.entry(ch).or_insert(0) += 1; }
         if name == "flow" { if let Some(lag) = f.get("nii").and_then(|r| r.get("seen")).and_then(|r| r.as_i64()) {
             // the peer's view: everything it has received on the channel the EUT uses for this session, minus lag
             let ech = e.get("ech").and_then(|x| x.as_u64()).unwrap_or(0) as u16;
@@ -410,6 +466,7 @@ impl Exec {
             let peer_sender = a.role == fe2o3_amqp_types::definitions::Role::Sender;
             self.roles.insert((false, ch, a.handle.0), !peer_sender);
             self.peer_link_name.insert((ch, a.handle.0), a.name.clone());
+            if peer_sender { self.pv.sdc.insert(a.name.clone(), (a.initial_delivery_count.unwrap_or(0), 0)); self.pv.limit.remove(&a.name); self.pv.inprog.remove(&(ch, a.handle.0)); self.pv.skipping.remove(&(ch, a.handle.0)); }
         }
         let mut body = serde_amqp::to_vec(&p).unwrap();
         let mut pl = json!({"m": -1, "off": 0, "len": 0, "ok": true, "total": 0});
@@ -588,6 +645,8 @@ impl Exec {
     // ------------------------------------------------------------------ script events
     pub async fn event(&mut self, e: &J) {
         let kind = e["e"].as_str().unwrap_or("");
+        let prev_skipped = std::mem::replace(&mut self.pv.last_skipped, false);
+        if prev_skipped && e.get("needs_prev").and_then(|x| x.as_bool()).unwrap_or(false) { return self.skip(e, "the event it answers was skipped"); }
         match kind {
             "Shifts" => {
                 // TLC integers are 32-bit: shifts near 2^32 are given as decimal strings
